@@ -192,6 +192,9 @@ for _kind in ("traditional", "other"):
 
 # SeismicRecording3C.split keeps the orientation (its contract is stated and proved with the C10 contracts; it is an obligation of this property too)
 import contracts.C10 as _C10
+import contracts.C03 as _C03
+# azimuthal processing = one single-azimuth run per azimuth with the caller's other settings (proved with the C03 contracts; an obligation here too)
+TASKS += [t for t in _C03.TASKS if getattr(t, "label", "").startswith("hvsrpy.processing.azimuthal_hvsr_processing")]
 TASKS += [t for t in _C10.TASKS if getattr(t, "label", "") == "hvsrpy.seismic_recording_3c.SeismicRecording3C.split" or (hasattr(t, "contract") and t.contract.qual.endswith("SeismicRecording3C.split"))]
 
 META = dict(
